@@ -114,8 +114,13 @@ _more("C01", " + RefEval.tla (big-step reference semantics = machine, MCRefEval)
       "RefEval.tla is a big-step transcription of the reference evaluator; TLC checks machine = reference on the same universe (named adapters list the deliberate deviations).")
 MCO = ("MCOps.tla enumerates every non-cryptographic operator x argument lists of arity 0..3 over boundary alphabets (limb boundaries, long atoms, shift counts) "
        "x both cost models x budgets {unlimited, cost, cost-1}; TLC checks design-level laws and every case is replayed into ChiaDialect::op.")
-for _p in ("C02", "C10", "C11", "C25"):
+for _p in ("C01", "C02", "C10", "C11", "C25"):
     _more(_p, " + TLC enumeration of operator calls (MCOps.tla) replayed into ChiaDialect::op", MCO)
+_more("C01", "", "For C01 the MCOps cases with classic operators and default flags count (success/failure, cost, value).")
+_more("C02", "", "Budgets also include every value across a guard's window (entry cost E .. E + declared + 3, from the hook events) and the failure threshold T-1, T, T+1 of failing runs (smallest budget under which the run fails for its own reason).")
+_more("C10", "", "Every random call and every MCOps case is repeated with the argument tree stored with maximal node sharing (no operator's cost or result may depend on sharing).")
+_more("C30", "", "Both dialects are also run under budgets around the cost of successful runs and around the failure threshold of failing ones.")
+_more("C04", "", "GC result kinds include atoms that begin in bytes older than the candidate's checkpoint; limited allocators (limit = the run's own maximum) are part of the profile.")
 _more("C07", " + MCF9.tla (design-level reproduction of finding F9)",
       "The restriction-sensitive generator covers modpow, operand sizes at the LIMITS/DISABLE_OP bounds (incl. sign-byte spellings), BLS scalars, unknown operators, non-canonical guard arguments, invalid points and 21-deep guards; MCF9.tla shows at design level that CANONICAL_INTS alone is not a pure restriction (known finding F9) and that it is one together with NO_UNKNOWN_OPS.")
 _more("C09", " + MCUnknown.tla (TLC) + ApaUnknown.tla (Apalache, unbounded integers)",
